@@ -13,10 +13,10 @@ import (
 	"fmt"
 	"sync"
 
+	kms2 "github.com/aws/aws-sdk-go-v2/service/kms"
 	"github.com/aws/aws-sdk-go/aws"
 	"github.com/aws/aws-sdk-go/aws/request"
 	kms1 "github.com/aws/aws-sdk-go/service/kms"
-	kms2 "github.com/aws/aws-sdk-go-v2/service/kms"
 )
 
 // Call is one request seen by a regional fake.
@@ -33,6 +33,9 @@ type Cloud struct {
 	Log     []Call
 	// Requests holds every byte string sent to the cloud (Encrypt plaintexts, Decrypt blobs).
 	Requests [][]byte
+	// ReqPlain holds the Plaintext slices of Encrypt requests themselves (same backing arrays): buffers that held the
+	// data key on the caller's side.
+	ReqPlain [][]byte
 }
 
 // Region is the fake KMS of one region.
@@ -74,7 +77,7 @@ func (c *Cloud) ARNMap(regions ...string) map[string]string {
 func (c *Cloud) Reset() {
 	c.mu.Lock()
 	defer c.mu.Unlock()
-	c.Log, c.Requests = nil, nil
+	c.Log, c.Requests, c.ReqPlain = nil, nil, nil
 	for _, r := range c.Regions {
 		r.FailGenerate, r.FailEncrypt, r.FailDecrypt, r.WrongPlaintext = false, false, false, false
 		r.Handed = nil
@@ -86,7 +89,11 @@ func (c *Cloud) log(region, op string, ok bool) {
 }
 
 // Calls returns a copy of the call log.
-func (c *Cloud) Calls() []Call { c.mu.Lock(); defer c.mu.Unlock(); return append([]Call(nil), c.Log...) }
+func (c *Cloud) Calls() []Call {
+	c.mu.Lock()
+	defer c.mu.Unlock()
+	return append([]Call(nil), c.Log...)
+}
 
 func (r *Region) seal(pt []byte) []byte {
 	blk, _ := aes.NewCipher(r.master)
@@ -127,6 +134,7 @@ func (r *Region) encrypt(keyID string, pt []byte) ([]byte, error) {
 	r.cloud.mu.Lock()
 	defer r.cloud.mu.Unlock()
 	r.cloud.Requests = append(r.cloud.Requests, append([]byte(nil), pt...))
+	r.cloud.ReqPlain = append(r.cloud.ReqPlain, pt)
 	if r.FailEncrypt || keyID != r.ARN {
 		r.cloud.log(r.Name, "encrypt", false)
 		return nil, fmt.Errorf("KMSInternalException: encrypt failed in %s", r.Name)
